@@ -1,12 +1,51 @@
 import ZV.Model.C14
 import ZV.Proofs.C14
+import ZV.Proofs.C14Str
+import ZV.Proofs.C14Int
+import ZV.Proofs.C22
+import ZV.Generated.C14
 /-!
   C14 — CRL revocation lookup reports exactly the listed serials.
 
   `check crl serial cache` is the branch-for-branch model of `CheckCRLForCert`
-  (`cache = none` ⇒ linear search; `some m` ⇒ map lookup by the serial's decimal string).
+  (`cache = none` ⇒ linear search; `some m` ⇒ map lookup by the serial's decimal string `decChars serial`).
 -/
 namespace ZV.C14
+
+/-! ### the cache key: `(*big.Int).String()` -/
+
+/-- the decimal rendering has a left inverse (reading the numeral back gives the integer) … -/
+theorem decChars_roundtrip (i : Int) : parseDec (decChars i) = i := parseDec_decChars i
+
+/-- … hence it is injective: two serials have the same cache key exactly when they are equal.  (Formerly an
+    assumption about math/big; now a theorem about the modelled rendering, which T2 `c14 str` ties to `String()`.) -/
+theorem decChars_injective {a b : Int} (h : decChars a = decChars b) : a = b := by
+  have := congrArg parseDec h
+  simpa [parseDec_decChars] using this
+
+theorem decChars_eq_iff (a b : Int) : decChars a = decChars b ↔ a = b :=
+  ⟨decChars_injective, fun h => by rw [h]⟩
+
+/-- shape of a key: an optional '-' (exactly for negative serials) followed by one or more decimal digits -/
+theorem decChars_shape (i : Int) :
+    ∃ ds : List Char, ds ≠ [] ∧ (∀ c ∈ ds, c.isDigit = true) ∧
+      decChars i = (if i < 0 then '-' :: ds else ds) := by
+  cases i with
+  | ofNat n =>
+    obtain ⟨d, r, _, he⟩ := natDigits_head n
+    refine ⟨natDigits n, by rw [he]; simp, natDigits_all_digits n, ?_⟩
+    have : ¬ (Int.ofNat n < 0) := by simp
+    simp [decChars, this]
+  | negSucc n =>
+    obtain ⟨d, r, _, he⟩ := natDigits_head (n + 1)
+    refine ⟨natDigits (n + 1), by rw [he]; simp, natDigits_all_digits (n + 1), ?_⟩
+    have : Int.negSucc n < 0 := Int.negSucc_lt_zero n
+    simp [decChars, this]
+
+theorem keyPred_eq (serial : Int) :
+    (fun e : Entry => decide (decChars e.serial = decChars serial)) = (fun e => decide (e.serial = serial)) := by
+  funext e
+  simp [decChars_eq_iff]
 
 /-- the entry the property speaks about: the FIRST listed entry with the queried serial -/
 def firstListed (entries : List Entry) (serial : Int) : Option Entry :=
@@ -47,7 +86,12 @@ theorem firstListed_is_first (entries : List Entry) (serial : Int) (e : Entry)
 
 /-- a map filled first-wins from the entry list answers every lookup with the first listed entry -/
 theorem firstWins_get (entries : List Entry) (serial : Int) :
-    (firstWins entries).get serial = firstListed entries serial := by
+    (firstWins entries).get (decChars serial) = firstListed entries serial := by
+  rw [firstWins_eq, fw_fold_get, keyPred_eq]; rfl
+
+/-- a key that is not the rendering of a listed serial is absent from the first-wins map -/
+theorem firstWins_get_key (entries : List Entry) (k : Key) :
+    (firstWins entries).get k = entries.find? (fun e => decide (decChars e.serial = k)) := by
   rw [firstWins_eq, fw_fold_get]; rfl
 
 /-- Supplying a cache built (first-wins) from the same entries gives the same result as the linear
@@ -61,41 +105,45 @@ theorem cache_agrees (crl : CRL) (serial : Int) (cache : Cache) (h : cache = fir
 /-- For ANY cache whose key set is the set of listed serials (whatever entry it keeps per serial) the
     revoked flag agrees with the linear search. -/
 theorem cache_flag_agrees (crl : CRL) (serial : Int) (cache : Cache)
-    (h : ∀ k, (cache.get k).isSome = true ↔ ∃ e ∈ crl.entries, e.serial = k) :
+    (h : ∀ k : Key, (cache.get k).isSome = true ↔ ∃ e ∈ crl.entries, decChars e.serial = k) :
     (check crl serial (some cache)).isRevoked = (check crl serial none).isRevoked := by
   have hl := check_linear_iff crl serial
-  have hk := h serial
+  have hk : (cache.get (decChars serial)).isSome = true ↔ ∃ e ∈ crl.entries, e.serial = serial := by
+    rw [h (decChars serial)]
+    simp only [decChars_eq_iff]
   cases hc : (check crl serial none).isRevoked with
   | true =>
     have := hk.mpr (hl.mp hc)
     simp only [check, gather_spec, header]
-    cases hg : cache.get serial with
+    cases hg : cache.get (decChars serial) with
     | some v => rfl
     | none => simp [hg] at this
   | false =>
     have hn : ¬ ∃ e ∈ crl.entries, e.serial = serial := fun hx => by simp [hl.mpr hx] at hc
-    have : (cache.get serial).isSome ≠ true := fun hx => hn (hk.mp hx)
+    have : (cache.get (decChars serial)).isSome ≠ true := fun hx => hn (hk.mp hx)
     simp only [check, gather_spec, header]
-    cases hg : cache.get serial with
+    cases hg : cache.get (decChars serial) with
     | some v => simp [hg] at this
     | none => rfl
 
 /-- the construction used by crl_test.go (plain overwrite, last wins) keeps the LAST listed entry … -/
-theorem lastWins_get (entries : List Entry) (serial : Int) :
-    (lastWins entries).get serial = entries.reverse.find? (fun e => decide (e.serial = serial)) := by
+theorem lastWins_get_key (entries : List Entry) (k : Key) :
+    (lastWins entries).get k = entries.reverse.find? (fun e => decide (decChars e.serial = k)) := by
   unfold lastWins
   rw [lw_fold_get]
-  cases entries.reverse.find? (fun e => decide (e.serial = serial)) <;> rfl
+  cases entries.reverse.find? (fun e => decide (decChars e.serial = k)) <;> rfl
 
-/-- … so it has the same flag … -/
-theorem lastWins_flag_agrees (crl : CRL) (serial : Int) :
-    (check crl serial (some (lastWins crl.entries))).isRevoked = (check crl serial none).isRevoked := by
-  apply cache_flag_agrees
-  intro k
-  rw [lastWins_get]
+theorem lastWins_get (entries : List Entry) (serial : Int) :
+    (lastWins entries).get (decChars serial) = entries.reverse.find? (fun e => decide (e.serial = serial)) := by
+  rw [lastWins_get_key, keyPred_eq]
+
+/-- the key set of the last-wins map is the set of renderings of the listed serials -/
+theorem lastWins_keys (entries : List Entry) (k : Key) :
+    ((lastWins entries).get k).isSome = true ↔ ∃ e ∈ entries, decChars e.serial = k := by
+  rw [lastWins_get_key]
   constructor
   · intro h
-    cases hf : crl.entries.reverse.find? (fun e => decide (e.serial = k)) with
+    cases hf : entries.reverse.find? (fun e => decide (decChars e.serial = k)) with
     | none => simp [hf] at h
     | some e =>
       exact ⟨e, by simpa using List.mem_of_find?_eq_some hf, by simpa using List.find?_some hf⟩
@@ -105,11 +153,35 @@ theorem lastWins_flag_agrees (crl : CRL) (serial : Int) :
     simp only [List.find?_eq_none, List.mem_reverse, decide_eq_true_eq] at hn
     exact hn e he hk
 
+/-- the same for the first-wins map -/
+theorem firstWins_keys (entries : List Entry) (k : Key) :
+    ((firstWins entries).get k).isSome = true ↔ ∃ e ∈ entries, decChars e.serial = k := by
+  rw [firstWins_get_key]
+  constructor
+  · intro h
+    cases hf : entries.find? (fun e => decide (decChars e.serial = k)) with
+    | none => simp [hf] at h
+    | some e =>
+      exact ⟨e, List.mem_of_find?_eq_some hf, by simpa using List.find?_some hf⟩
+  · rintro ⟨e, he, hk⟩
+    rw [Option.isSome_iff_ne_none]
+    intro hn
+    simp only [List.find?_eq_none, decide_eq_true_eq] at hn
+    exact hn e he hk
+
+/-- … so it has the same flag … -/
+theorem lastWins_flag_agrees (crl : CRL) (serial : Int) :
+    (check crl serial (some (lastWins crl.entries))).isRevoked = (check crl serial none).isRevoked := by
+  exact cache_flag_agrees crl serial _ (lastWins_keys crl.entries)
+
 /-- … but, with a serial listed twice, not the same time: the sentence about the time needs first-wins. -/
 theorem lastWins_time_counterexample :
     ∃ (crl : CRL) (serial : Int),
       (check crl serial (some (lastWins crl.entries))).revTime ≠ (check crl serial none).revTime :=
-  ⟨⟨1, 0, 0, [], [], [⟨7, 100⟩, ⟨7, 200⟩], []⟩, 7, by decide⟩
+  ⟨⟨1, 0, 0, none, [], [⟨7, 100⟩, ⟨7, 200⟩], []⟩, 7, by
+    rw [check_linear_time]
+    simp only [check, lastWins_get]
+    decide⟩
 
 /-! ### extension classification -/
 
@@ -132,7 +204,7 @@ theorem ext_classification (crl : CRL) (serial : Int) (cache : Option Cache) :
     simp [header]
   | some m =>
     simp only [check]
-    cases m.get serial <;> (rw [gather_spec]; simp [header])
+    cases m.get (decChars serial) <;> (rw [gather_spec]; simp [header])
 
 /-- nothing is lost, nothing is duplicated: every extension is either a CRL-number extension or lands in
     exactly the list matching its critical flag; and the two lists are sublists (order preserved) -/
@@ -166,40 +238,251 @@ theorem ext_partition (crl : CRL) (serial : Int) (cache : Option Cache) :
       simp only [List.filter_cons, List.length_cons]
       cases isNum e <;> cases e.critical <;> simp <;> omega
 
-/-! ### CRL number decoding -/
+/-! ### CRL number decoding: `asn1.Unmarshal(value, &int)` = `ZV.C18.unmarshal false .int64 {}` -/
 
+open ZV.C18 in
+/-- short-form header (tag 02, one length byte < 128, content `c`, then anything): the outcome is exactly the outcome
+    of the content parser `parseInt64` on `c` — for EVERY content, accepted or not -/
+theorem derInt_short_form_all (c tail : Bytes) (h : c.length < 128) :
+    derInt (2 :: UInt8.ofNat c.length :: (c ++ tail)) =
+      match parseInt64 false c with | .ok v => some v | _ => none := derInt_short c tail h
+
+open ZV.C18 in
 /-- A CRL-number extension value in DER short form — tag 02, one length byte, 1..8 minimal content bytes, then
     anything — decodes to the two's-complement integer of the content (and `numOf` is that integer). -/
-theorem derInt_short_form (c tail : Bytes) (h1 : 1 ≤ c.length) (h8 : c.length ≤ 8) (hmin : checkInteger c = true) :
-    derInt (2 :: UInt8.ofNat c.length :: (c ++ tail)) = some (twos c) := by
-  have hl : (UInt8.ofNat c.length).toNat = c.length := by
-    rw [UInt8.toNat_ofNat']; omega
-  have h2 : (2 : UInt8).toNat = 2 := rfl
-  simp only [derInt, h2, ne_eq, not_true_eq_false, if_false, parseLen, hl]
-  have hlt : c.length < 128 := by omega
-  simp only [hlt, if_true]
-  have : ¬ (c.length > (c ++ tail).length) := by simp
-  simp only [this, if_false, List.take_left' rfl, hmin, Bool.not_true, Bool.false_eq_true]
-  have : ¬ (c.length > 8) := by omega
-  simp [this]
+theorem derInt_short_form (c tail : Bytes) (h8 : c.length ≤ 8) (hmin : checkInteger false c = true) :
+    derInt (2 :: UInt8.ofNat c.length :: (c ++ tail)) = some (sval c) := by
+  rw [derInt_short c tail (by omega), parseInt64_sval c hmin h8]
 
-example : derInt [2, 2, 1, 44, 99] = some 300 := by decide
-example : derInt [2, 1, 255] = some (-1) := by decide
-example : checkInteger [0, 5] = false := by decide
+open ZV.C18 in
+/-- COMPLETE characterisation (no hypothesis on the input): `Unmarshal(value, &int)` succeeds exactly on
+    `02 len c…` with a single length byte, 1 ≤ len ≤ 8, `c` minimally encoded, and then yields the two's-complement
+    value of `c`; trailing bytes are ignored.  In particular every long-form length, every other identifier octet
+    (wrong tag, class, constructed bit, high-tag form), every truncation and every non-minimal or > 8 byte integer fails
+    — and `gatherListExtensionInfo` then reports CRL number 0. -/
+theorem derInt_iff (bs : Bytes) (v : Int) :
+    derInt bs = some v ↔
+      ∃ c tail, bs = 2 :: UInt8.ofNat c.length :: (c ++ tail) ∧ 1 ≤ c.length ∧ c.length ≤ 8 ∧
+        checkInteger false c = true ∧ v = sval c := by
+  constructor
+  · intro h
+    unfold derInt at h
+    rw [unmarshal_int64, primField_int64] at h
+    cases bs with
+    | nil => simp [parseTL] at h
+    | cons b r1 =>
+      cases hp : parseTL false (b :: r1) with
+      | err => simp [hp] at h
+      | panic => simp [hp] at h
+      | ok x =>
+        obtain ⟨t, r'⟩ := x
+        simp only [hp] at h
+        by_cases hc : t.cls = 0 ∧ t.tag = 2 ∧ t.compound = false
+        · simp only [hc, and_self, if_true] at h
+          by_cases hl : t.len > r'.length
+          · simp [hl] at h
+          · simp only [hl, if_false] at h
+            cases hi : parseInt64 false (r'.take t.len) with
+            | err => simp [hi] at h
+            | panic => simp [hi] at h
+            | ok i =>
+              simp only [hi, Option.some.injEq] at h
+              subst h
+              obtain ⟨hb, hr⟩ := int_header b r1 r' t hp hc.1 hc.2.1 hc.2.2
+              obtain ⟨hck, hlen⟩ := parseInt64_ok _ _ hi
+              have htl : (r'.take t.len).length = t.len := by rw [List.length_take]; omega
+              rcases readLen_strict r1 r' t.len hr with ⟨b2, hr1, hb2, hlb⟩ | hbig
+              · refine ⟨r'.take t.len, r'.drop t.len, ?_, ?_, hlen, hck, ?_⟩
+                · rw [hb, hr1, htl, List.take_append_drop, hlb]
+                  congr 2
+                  apply UInt8.toNat_inj.mp
+                  rw [toNat_ofNat_lt (by omega)]
+                · exact checkInteger_ne_nil _ hck
+                · have := parseInt64_sval _ hck hlen
+                  rw [hi] at this
+                  exact (Res.ok.inj this)
+              · omega
+        · simp [hc] at h
+  · rintro ⟨c, tail, rfl, _, h8, hmin, rfl⟩
+    exact derInt_short_form c tail h8 hmin
+
+open ZV.C18 in
+/-- a long-form length (first length byte ≥ 0x80) never yields a CRL number -/
+theorem derInt_long_form_none (b : UInt8) (rest : Bytes) (h : b.toNat ≥ 128) : derInt (2 :: b :: rest) = none := by
+  cases hd : derInt (2 :: b :: rest) with
+  | none => rfl
+  | some v =>
+    obtain ⟨c, tail, heq, _, h8, _, _⟩ := (derInt_iff _ v).mp hd
+    have hb : b = UInt8.ofNat c.length := (List.cons.inj (List.cons.inj heq).2).1
+    rw [hb, toNat_ofNat_lt (by omega)] at h
+    omega
+
+/-- an identifier octet other than 0x02 never yields a CRL number -/
+theorem derInt_wrong_tag_none (t : UInt8) (rest : Bytes) (h : t ≠ 2) : derInt (t :: rest) = none := by
+  cases hd : derInt (t :: rest) with
+  | none => rfl
+  | some v =>
+    obtain ⟨c, tail, heq, _⟩ := (derInt_iff _ v).mp hd
+    exact absurd (List.cons.inj heq).1 h
+
+theorem derInt_nil : derInt [] = none := by
+  cases hd : derInt [] with
+  | none => rfl
+  | some v =>
+    obtain ⟨c, tail, heq, _⟩ := (derInt_iff _ v).mp hd
+    cases heq
+
+/-- the reported CRL number of a CRL: value of the LAST CRL-number extension if it decodes, else 0 — spelled out with
+    the characterisation above: a non-zero CRL number is always the two's-complement value of 1..8 content bytes -/
+theorem crlNumber_nonzero (crl : CRL) (serial : Int) (cache : Option Cache)
+    (h : (check crl serial cache).crlNumber ≠ 0) :
+    ∃ e ∈ crl.exts, e.oid = crlNumberOID ∧
+      ∃ c tail, e.value = 2 :: UInt8.ofNat c.length :: (c ++ tail) ∧ 1 ≤ c.length ∧ c.length ≤ 8 ∧
+        ZV.C18.checkInteger false c = true ∧ (check crl serial cache).crlNumber = ZV.C18.sval c := by
+  have h3 : (check crl serial cache).crlNumber = crlNumberOf crl.exts 0 := (ext_classification crl serial cache).2.2
+  rw [h3] at h ⊢
+  unfold crlNumberOf at h ⊢
+  cases hl : (crl.exts.filter isNum).getLast? with
+  | none => simp [hl] at h
+  | some e =>
+    simp only [hl] at h ⊢
+    have hm : e ∈ crl.exts.filter isNum := List.mem_of_getLast? hl
+    rw [List.mem_filter] at hm
+    refine ⟨e, hm.1, by simpa [isNum] using hm.2, ?_⟩
+    unfold numOf at h ⊢
+    cases hd : derInt e.value with
+    | none => simp [hd] at h
+    | some v =>
+      obtain ⟨c, tail, h1, h2, h3, h4, h5⟩ := (derInt_iff _ v).mp hd
+      exact ⟨c, tail, h1, h2, h3, h4, h5⟩
+
+example : derInt [2, 2, 1, 44, 99] = some 300 := by
+  have := derInt_short_form [1, 44] [99] (by decide) (by decide)
+  simpa [ZV.C18.sval] using this
+example : derInt [2, 1, 255] = some (-1) := by
+  have := derInt_short_form [255] [] (by decide) (by decide)
+  simpa [ZV.C18.sval] using this
+example : ZV.C18.checkInteger false [0, 5] = false := by decide
+example : derInt [2, 0x81, 1, 5] = none := derInt_long_form_none _ _ (by decide)
 
 /-! ### copied header -/
 
+/-- the scalar fields are copied; the issuer is `FillFromRDNSequence` (model `ZV.C22.fill`) of the CRL's issuer:
+    `OriginalRDNS` is the sequence itself, `Names` its attributes in document order, every `[]string` field the
+    values of the string-valued attributes that the dispatch table sends to it, in document order, and the two scalar
+    fields (CommonName, SerialNumber) the last such value -/
 theorem header_copied (crl : CRL) (serial : Int) (cache : Option Cache) :
     let r := check crl serial cache
     r.sig = crl.sig ∧ r.version = crl.version ∧ r.thisUpdate = crl.thisUpdate ∧ r.nextUpdate = crl.nextUpdate ∧
-    r.issuerRDNs = crl.issuer ∧ r.issuerNames = crl.issuer.flatten := by
+    r.issuer = ZV.C22.fill crl.issuer ∧
+    r.issuer.originalRDNS = crl.issuer ∧ r.issuer.names = ZV.C22.flat crl.issuer ∧ r.issuer.extraNames = [] ∧
+    (∀ f, r.issuer.get f = (ZV.C22.flat crl.issuer).flatMap (ZV.C22.valsFor f)) ∧
+    (∀ s, r.issuer.getS s = (ZV.C22.flat crl.issuer).foldl (ZV.C22.stepS s) []) := by
+  have hi : (check crl serial cache).issuer = ZV.C22.fill crl.issuer := by
+    cases cache with
+    | none =>
+      simp only [check, search_spec, gather_spec, header]
+      cases crl.entries.find? (fun e => decide (e.serial = serial)) <;> rfl
+    | some m =>
+      simp only [check, gather_spec, header]
+      cases m.get (decChars serial) <;> rfl
+  have hf : ZV.C22.fill crl.issuer = ZV.C22.fillFlat { ZV.C22.Name.empty with originalRDNS := crl.issuer } (ZV.C22.flat crl.issuer) := by
+    unfold ZV.C22.fill; rw [ZV.C22.fillInto_eq]
+  have hrest := ZV.C22.fillFlat_rest (ZV.C22.flat crl.issuer) { ZV.C22.Name.empty with originalRDNS := crl.issuer }
+  simp only
+  refine ⟨?_, ?_, ?_, ?_, hi, ?_, ?_, ?_, ?_, ?_⟩
+  · cases cache with
+    | none =>
+      simp only [check, search_spec, gather_spec, header]
+      cases crl.entries.find? (fun e => decide (e.serial = serial)) <;> rfl
+    | some m =>
+      simp only [check, gather_spec, header]
+      cases m.get (decChars serial) <;> rfl
+  · cases cache with
+    | none =>
+      simp only [check, search_spec, gather_spec, header]
+      cases crl.entries.find? (fun e => decide (e.serial = serial)) <;> rfl
+    | some m =>
+      simp only [check, gather_spec, header]
+      cases m.get (decChars serial) <;> rfl
+  · cases cache with
+    | none =>
+      simp only [check, search_spec, gather_spec, header]
+      cases crl.entries.find? (fun e => decide (e.serial = serial)) <;> rfl
+    | some m =>
+      simp only [check, gather_spec, header]
+      cases m.get (decChars serial) <;> rfl
+  · cases cache with
+    | none =>
+      simp only [check, search_spec, gather_spec, header]
+      cases crl.entries.find? (fun e => decide (e.serial = serial)) <;> rfl
+    | some m =>
+      simp only [check, gather_spec, header]
+      cases m.get (decChars serial) <;> rfl
+  · rw [hi, hf, hrest.2.2]
+  · rw [hi, hf, hrest.1]; simp [ZV.C22.Name.empty]
+  · rw [hi, hf, hrest.2.1]; simp [ZV.C22.Name.empty]
+  · intro f
+    rw [hi, hf, ZV.C22.fillFlat_get]
+    cases f <;> simp [ZV.C22.Name.get, ZV.C22.Name.empty]
+  · intro s
+    rw [hi, hf, ZV.C22.fillFlat_getS]
+    cases s <;> simp [ZV.C22.Name.getS, ZV.C22.Name.empty]
+
+/-- what `CheckCRLForCert` does NOT report: the per-entry extension data (reason code, invalidity date) and the raw
+    entry extensions stay at their zero values for every input (crl.go carries a TODO for them) -/
+theorem entry_extensions_never_reported (crl : CRL) (serial : Int) (cache : Option Cache) :
+    (check crl serial cache).entryReason = none ∧ (check crl serial cache).rawEntryExts = [] := by
   cases cache with
   | none =>
-    simp only [check, search_spec, gather_spec, header, fillNames]
-    cases crl.entries.find? (fun e => decide (e.serial = serial)) <;> simp
+    simp only [check, search_spec, gather_spec, header]
+    cases crl.entries.find? (fun e => decide (e.serial = serial)) <;> exact ⟨rfl, rfl⟩
   | some m =>
-    simp only [check, gather_spec, header, fillNames]
-    cases m.get serial <;> simp
+    simp only [check, gather_spec, header]
+    cases m.get (decChars serial) <;> exact ⟨rfl, rfl⟩
+
+/-! ### T1: facts read from crl.go on every run (lean/ZV/Generated/C14.lean) -/
+
+/-- the OID the model dispatches on is the one in the source -/
+theorem crlNumberOID_matches_source : crlNumberOID = Gen.crlNumberExtensionOID := by decide
+
+/-- the two entry-extension OIDs crl.go declares (reason code, invalidity date) are distinct from the CRL-number OID:
+    such extensions on the LIST are classified by their critical flag, not decoded -/
+theorem entry_ext_oids_not_crlNumber :
+    Gen.revocationReasonExtensionOID ≠ Gen.crlNumberExtensionOID ∧ Gen.invalidityDateExtensionOID ≠ Gen.crlNumberExtensionOID ∧
+    Gen.revocationReasonExtensionOID ≠ Gen.invalidityDateExtensionOID := by decide
+
+/-- the loop body of gatherListExtensionInfo is the three-way chain the model `gatherStep` mirrors, in this order -/
+theorem gather_chain_matches_source :
+    Gen.gatherChain =
+      [("extension.Id.Equal(crlNumberExtensionOID)".toList, "ret.CRLExtensions.CRLNumber = ext.CRLNumber".toList),
+       ("extension.Critical".toList, "ret.UnknownCriticalCRLExtensions = append(ret.UnknownCriticalCRLExtensions, extension)".toList),
+       ("else".toList, "ret.UnknownCRLExtensions = append(ret.UnknownCRLExtensions, extension)".toList)] := by decide
+
+/-- the `&RevocationData{…}` literal copies exactly the fields `header` copies, from the sources `header` reads -/
+theorem header_literal_matches_source :
+    Gen.headerLiteral =
+      [("CRLSignatureAlgorithm".toList, "x509.GetSignatureAlgorithmFromAI(certList.SignatureAlgorithm)".toList),
+       ("CRLSignatureValue".toList, "certList.SignatureValue.Bytes".toList),
+       ("Version".toList, "certList.TBSCertList.Version".toList),
+       ("ThisUpdate".toList, "certList.TBSCertList.ThisUpdate".toList),
+       ("NextUpdate".toList, "certList.TBSCertList.NextUpdate".toList),
+       ("IsRevoked".toList, "false".toList)] := by decide
+
+/-- beyond the literal, the two functions write exactly these fields of the result — in particular never
+    `CertificateEntryExtensions` / `RawCertificateEntryExtensions` / `CRLExtensions.AuthKeyID`
+    (source-level counterpart of `entry_extensions_never_reported`) -/
+theorem ret_written_matches_source :
+    Gen.retWritten =
+      ["CRLExtensions.CRLNumber".toList, "IsRevoked".toList, "Issuer.FillFromRDNSequence()".toList,
+       "RevocationTime".toList, "UnknownCRLExtensions".toList, "UnknownCriticalCRLExtensions".toList] := by decide
+
+/-- reason-code name table: codes 0..10 without 7, nothing else written to the table, names pairwise distinct
+    (so the name determines the code) and non-empty -/
+theorem reason_table :
+    Gen.reasonCodeNames.map (·.1) = [0, 1, 2, 3, 4, 5, 6, 8, 9, 10] ∧ Gen.reasonCodeOther = [] ∧
+    (Gen.reasonCodeNames.map (·.2)).Nodup ∧ (∀ r ∈ Gen.reasonCodeNames, r.2 ≠ []) ∧
+    Gen.reasonCodeNames.lookup 7 = none := by decide
 
 /-! ### repeated lookups on one CertificateList (inputs are only read) -/
 
@@ -215,31 +498,37 @@ theorem checkSeq_crl_part_stable (crl : CRL) (qs : List (Int × Option Cache)) :
     ∀ r ∈ checkSeq crl qs, ∀ r' ∈ checkSeq crl qs,
       r.crlNumber = r'.crlNumber ∧ r.unknown = r'.unknown ∧ r.unknownCritical = r'.unknownCritical ∧
       r.sig = r'.sig ∧ r.version = r'.version ∧ r.thisUpdate = r'.thisUpdate ∧ r.nextUpdate = r'.nextUpdate ∧
-      r.issuerRDNs = r'.issuerRDNs ∧ r.issuerNames = r'.issuerNames := by
+      r.issuer = r'.issuer := by
   intro r hr r' hr'
   simp only [checkSeq, List.mem_map] at hr hr'
   obtain ⟨q, _, rfl⟩ := hr
   obtain ⟨q', _, rfl⟩ := hr'
   obtain ⟨a1, a2, a3⟩ := ext_classification crl q.1 q.2
   obtain ⟨b1, b2, b3⟩ := ext_classification crl q'.1 q'.2
-  obtain ⟨c1, c2, c3, c4, c5, c6⟩ := header_copied crl q.1 q.2
-  obtain ⟨d1, d2, d3, d4, d5, d6⟩ := header_copied crl q'.1 q'.2
+  obtain ⟨c1, c2, c3, c4, c5, _⟩ := header_copied crl q.1 q.2
+  obtain ⟨d1, d2, d3, d4, d5, _⟩ := header_copied crl q'.1 q'.2
   refine ⟨by rw [a3, b3], by rw [a2, b2], by rw [a1, b1], by rw [c1, d1], by rw [c2, d2], by rw [c3, d3],
-    by rw [c4, d4], by rw [c5, d5], by rw [c6, d6]⟩
+    by rw [c4, d4], by rw [c5, d5]⟩
 
-example : (checkSeq ⟨1, 0, 0, [], [], [⟨7, 100⟩], [⟨[2, 5, 29, 20], false, [2, 2, 13, 197]⟩, ⟨[2, 5, 29, 28], true, [48, 0]⟩,
-    ⟨[2, 5, 29, 35], false, [48, 0]⟩]⟩ [(7, none), (6, none), (7, some [])]).map (fun r => (r.isRevoked, r.crlNumber, r.unknown.length)) =
-    [(true, 3525, 1), (false, 3525, 1), (false, 3525, 1)] := by decide
+example : (checkSeq ⟨1, 0, 0, none, [], [⟨7, 100⟩], [⟨[2, 5, 29, 28], true, [48, 0]⟩,
+    ⟨[2, 5, 29, 35], false, [48, 0]⟩]⟩ [(7, none), (6, none), (7, some [])]).map (fun r => (r.isRevoked, r.unknown.length)) =
+    [(true, 1), (false, 1), (false, 1)] := by decide
 
 /-! ### non-vacuity -/
-example : ∃ (crl : CRL) (c : Cache), c = firstWins crl.entries ∧ c ≠ [] :=
-  ⟨⟨1, 0, 0, [], [], [⟨7, 100⟩, ⟨-3, 5⟩, ⟨7, 200⟩], []⟩, [(7, ⟨7, 100⟩), (-3, ⟨-3, 5⟩)], by decide, by decide⟩
+example : ∃ (crl : CRL) (c : Cache), c = firstWins crl.entries :=
+  ⟨⟨1, 0, 0, none, [], [⟨7, 100⟩, ⟨-3, 5⟩, ⟨7, 200⟩], []⟩, _, rfl⟩
 example : firstListed [⟨7, 100⟩, ⟨-3, 5⟩, ⟨7, 200⟩] 7 = some ⟨7, 100⟩ := by decide
-example : ∀ k, ((lastWins [⟨7, 100⟩, ⟨7, 200⟩]).get k).isSome = true ↔ ∃ e ∈ ([⟨7, 100⟩, ⟨7, 200⟩] : List Entry), e.serial = k := by
-  intro k
-  by_cases h : k = 7
-  · subst h; simp; decide
-  · have h' : ¬ (7 : Int) = k := fun x => h x.symm
-    simp [lastWins, Cache.set, Cache.get, h']
+example : ∀ k : Key, ((lastWins [⟨7, 100⟩, ⟨7, 200⟩]).get k).isSome = true ↔
+    ∃ e ∈ ([⟨7, 100⟩, ⟨7, 200⟩] : List Entry), decChars e.serial = k := lastWins_keys _
+example : (check ⟨1, 0, 0, none, [], [], [⟨[2, 5, 29, 20], false, [2, 1, 5]⟩]⟩ 1 none).crlNumber ≠ 0 := by
+  have h : (check ⟨1, 0, 0, none, [], [], [⟨[2, 5, 29, 20], false, [2, 1, 5]⟩]⟩ 1 none).crlNumber = crlNumberOf _ 0 :=
+    (ext_classification ⟨1, 0, 0, none, [], [], [⟨[2, 5, 29, 20], false, [2, 1, 5]⟩]⟩ 1 none).2.2
+  rw [h]
+  have hd := derInt_short_form [5] [] (by decide) (by decide)
+  have : crlNumberOf [⟨[2, 5, 29, 20], false, [2, 1, 5]⟩] 0 = 5 := by
+    simp only [crlNumberOf, List.filter, isNum, crlNumberOID, decide_true, List.getLast?_singleton, numOf]
+    rw [show ([2, 1, 5] : Bytes) = 2 :: UInt8.ofNat ([5] : Bytes).length :: ([5] ++ []) from rfl, hd]
+    simp [ZV.C18.sval]
+  rw [this]; decide
 
 end ZV.C14
